@@ -320,4 +320,180 @@ example : (readNsMany ⟨4, 4⟩ 10 2 (start ((encodeNs [58, 44, 49] ++ encodeNs
 example : (flushN 3 (writeMany 10 [[58, 44, 49], []] (sstart [.accept 2, .timeout]))).wire
     = [51, 58, 58, 44, 49, 44, 48, 58, 44] := by decide
 
+
+/-! ## 6. round 2: the arguments around the calls, the wall clock on the send side, read_ns under faults -/
+
+/-- a session written with the public calls - maxsize omitted (`self.maxsize`, which `setmaxsize`
+    changes), `None` (`_RECV_LARGE_MAXSIZE`) or explicit - returns the whole-stream answers of the
+    resolved operations, for every chunking, recvsize and timeout placement -/
+theorem calls_session_eq_spec (large : Nat) (cfg : Cfg) (hrs : 0 < cfg.recvsize) (calls : List Call)
+    (hdet : ∀ c ∈ calls, c.deterministic = true) (st : St) :
+    ((runCalls large cfg calls st).1, (runCalls large cfg calls st).2.view)
+      = specRun (resolveCalls large cfg.maxsize calls) st.view := by
+  rw [runCalls_eq]
+  exact session_eq_spec cfg hrs _ (resolveCalls_det large calls cfg.maxsize hdet) st
+
+/-- … hence two networks delivering the same bytes give the same results to the same calls, whatever
+    the two recvsize settings (the constructor maxsize being the same) -/
+theorem calls_chunk_independent (large : Nat) (cfg₁ cfg₂ : Cfg) (h₁ : 0 < cfg₁.recvsize)
+    (h₂ : 0 < cfg₂.recvsize) (hm : cfg₁.maxsize = cfg₂.maxsize) (calls : List Call)
+    (hdet : ∀ c ∈ calls, c.deterministic = true) (s₁ s₂ : List Ev) (hs : pending s₁ = pending s₂) :
+    (runCalls large cfg₁ calls (start s₁)).1 = (runCalls large cfg₂ calls (start s₂)).1 := by
+  have e₁ := calls_session_eq_spec large cfg₁ h₁ calls hdet (start s₁)
+  have e₂ := calls_session_eq_spec large cfg₂ h₂ calls hdet (start s₂)
+  have hv : (start s₁).view = (start s₂).view := by simp [St.view, hs]
+  rw [hv, hm] at e₁
+  have := e₁.trans e₂.symm
+  simp only [Prod.mk.injEq] at this
+  exact this.1
+
+/-- `setmaxsize` acts on later calls that omit maxsize and on nothing else: an explicit or `None`
+    maxsize is untouched by it, and the buffer and the socket are not touched at all -/
+theorem setmaxsize_effect (large : Nat) (cfg : Cfg) (n : Nat) (st : St) :
+    callAttempt large cfg (.setMaxsize n) st = (none, ⟨cfg.recvsize, n⟩, st) ∧
+    (∀ d w, (Call.recvUntil d .unset w).op large n = some (.recvUntil d n w)) ∧
+    (∀ d w m, (Call.recvUntil d (.some m) w).op large n = some (.recvUntil d m w)) ∧
+    (∀ d w, (Call.recvUntil d .none w).op large n = some (.recvUntil d large w)) ∧
+    (Call.recvClose .unset).op large n = some (.recvClose n) :=
+  ⟨rfl, fun _ _ => rfl, fun _ _ _ => rfl, fun _ _ => rfl, rfl⟩
+
+/-- a NetstringSocket however configured: constructor, then any number of `setmaxsize` calls -/
+def NsSock.configure (m0 : Nat) (sets : List Nat) : NsSock := sets.foldl NsSock.setMaxsize (NsSock.init m0)
+
+/-- the cached prefix window `_msgsize_maxsize` always agrees with the current maxsize -/
+theorem ns_window_invariant (m0 : Nat) (sets : List Nat) : (NsSock.configure m0 sets).WF := by
+  unfold NsSock.configure
+  have : ∀ (ns : NsSock), ns.WF → (sets.foldl NsSock.setMaxsize ns).WF := by
+    induction sets with
+    | nil => intro ns h; exact h
+    | cons m ms ih => intro ns _; exact ih _ rfl
+  exact this _ rfl
+
+/-- read_ns on a configured NetstringSocket, with or without a `maxsize=` argument, is read_ns with
+    the effective maxsize (argument if given, else the last configured one) -/
+theorem ns_read_configured (cfg : Cfg) (m0 : Nat) (sets : List Nat) (arg : Option Nat) (k : Nat) (st : St) :
+    (NsSock.configure m0 sets).readNsMany cfg arg k st
+      = readNsMany cfg (arg.getD (NsSock.configure m0 sets).maxsize) k st :=
+  NsSock.readNsMany_eq cfg _ (ns_window_invariant m0 sets) arg k st
+
+/-- the round trip for every configuration path: payloads no longer than the effective maxsize come
+    back exactly, whatever maxsize the socket was constructed with or set to before -/
+theorem netstring_roundtrip_configured (cfg : Cfg) (hrs : 0 < cfg.recvsize) (m0 : Nat) (sets : List Nat)
+    (arg : Option Nat) (ps : List Bytes) (rest : Bytes) (script : List Ev) (hto : nTO script = 0)
+    (hs : pending script = (ps.map encodeNs).flatten ++ rest)
+    (hall : ∀ p ∈ ps, p.length ≤ arg.getD (NsSock.configure m0 sets).maxsize) :
+    ((NsSock.configure m0 sets).readNsMany cfg arg ps.length (start script)).1 = ps.map NsRes.ok := by
+  rw [ns_read_configured]
+  exact (netstring_roundtrip cfg hrs _ ps rest script hto hs hall).1
+
+/-- whatever read_ns returns or raises - Timeout in the prefix or in the payload phase,
+    NetstringInvalidSize, NetstringMessageTooLong, a missing comma - the bytes still owed afterwards
+    are a suffix of the bytes owed before: nothing duplicated, nothing reordered -/
+theorem read_ns_no_duplication (cfg : Cfg) (hrs : 0 < cfg.recvsize) (maxsize : Nat) (st : St) :
+    ∃ c, c ++ (readNs cfg maxsize st).2.view = st.view :=
+  readNs_suffix cfg hrs maxsize st
+
+/-- a Timeout while read_ns is still looking for the size prefix loses nothing: the next read_ns
+    sees the same stream (read_ns is restartable in that phase) -/
+theorem read_ns_prefix_timeout_restartable (cfg : Cfg) (hrs : 0 < cfg.recvsize) (maxsize : Nat) (st : St)
+    (h : (recvUntil cfg [colon] ((digits maxsize).length + 1) false st).1 = .timeout) :
+    (readNs cfg maxsize st).1 = .timeout ∧ (readNs cfg maxsize st).2.view = st.view :=
+  readNs_prefix_timeout_keeps cfg hrs maxsize st h
+
+/-- the deadline check that follows a partial `sock.send`: the accepted bytes are on the wire and out
+    of the buffer before Timeout is raised (so a later flush cannot send them twice) -/
+theorem send_deadline_after_partial_send (k : Nat) (r : List SEv) (b : Nat) (buf : Bytes) (total : Nat)
+    (wire : Bytes) :
+    sendLoop (.accept k :: .clock :: r) (b :: buf) total wire
+      = (.timeout, ⟨[(b :: buf).drop k], wire ++ (b :: buf).take k, r⟩) := rfl
+
+/-- a Timeout that leaves nothing buffered (the deadline passed during the send that completed the
+    data) still means: everything is on the wire, once, in order -/
+theorem send_timeout_with_empty_buffer (data : Bytes) (st : SSt)
+    (hb : (send data st).2.getsendbuffer = []) :
+    (send data st).2.wire = st.wire ++ st.getsendbuffer ++ data := by
+  have := send_timeout_keeps data st
+  rwa [hb, List.append_nil] at this
+
+/-- exact fault accounting on the receive side: a call that raises Timeout used up exactly one of the
+    socket's timeouts, a call that ends any other way used up none - so the i-th fault the network
+    injects is the i-th fault the caller sees, and no fault is ever swallowed -/
+theorem timeout_accounting_exact (cfg : Cfg) (op : Op) (st : St) :
+    ((attempt cfg op st).1 = .timeout → nTO (attempt cfg op st).2.script + 1 = nTO st.script) ∧
+    ((attempt cfg op st).1 ≠ .timeout → nTO (attempt cfg op st).2.script = nTO st.script) :=
+  attempt_nTOex cfg op st
+
+/-- the same on the send side, deadline expiries included: faults left + (1 if this call raised
+    Timeout) = faults there were -/
+theorem send_fault_accounting (op : SOp) (st : SSt) :
+    nSF (sstep op st).2.script + (sstep op st).1.isTO = nSF st.script :=
+  sstep_faults op st
+
+/-- read_ns calls Python's lenient `int()` (whitespace, a sign, `_` grouping are tolerated); on every
+    strict decimal prefix - in particular on every prefix write_ns produces - it yields the same size -/
+theorem lenient_int_agrees_on_strict (bs : Bytes) (n : Nat) (h : parseNat bs = some n) :
+    parseSize bs = some n :=
+  parseSize_of_parseNat h
+
+theorem size_prefix_roundtrip_lenient (n : Nat) : parsePyInt (digits n) = some (Int.ofNat n) := by
+  have h := parsePyInt_strict (digits_ne_nil n) (digits_all n)
+  rw [h]
+  have := digits_val n
+  unfold val at this
+  rw [this]
+
+/-! ### non-vacuity, round 2 -/
+
+-- what Python's int() accepts and rejects:  b' +1_0 ' = 10, b'-5' = -5, b'007' = 7;
+-- b'1__0', b'_1', b'1_', b'+ 1', b'', b' ' are ValueErrors
+example : parsePyInt [32, 43, 49, 95, 48, 32] = some 10 ∧ parsePyInt [45, 53] = some (-5) ∧
+    parsePyInt [48, 48, 55] = some 7 ∧ parsePyInt [9, 49, 10] = some 1 := by decide
+example : parsePyInt [49, 95, 95, 48] = none ∧ parsePyInt [95, 49] = none ∧ parsePyInt [49, 95] = none ∧
+    parsePyInt [43, 32, 49] = none ∧ parsePyInt [] = none ∧ parsePyInt [32] = none ∧
+    parsePyInt [43] = none ∧ parsePyInt [49, 32, 49] = none := by decide
+-- a negative size is read like size 0: b'-1:,' is an empty payload
+example : (readNsMany ⟨4, 4⟩ 10 1 (start [.chunk [45, 49, 58, 44]])).1 = [.ok []] := by decide
+example : (readNsMany ⟨4, 4⟩ 10 1 (start [.chunk [32, 51, 58, 1, 2, 3, 44]])).1 = [.ok [1, 2, 3]] := by decide
+
+example : nTO (attempt ⟨2, 100⟩ (.recvUntil [13, 10] 100 false) (start exScript)).2.script = 1 := by decide
+example : nTO (callRetry ⟨2, 100⟩ (.recvUntil [13, 10] 100 false) (start exScript)).2.script = 1 := by decide
+example : nSF (sstep (.send [1, 2, 3]) (sstart [.accept 2, .clock, .timeout])).2.script = 1 ∧
+    (sstep (.send [1, 2, 3]) (sstart [.accept 2, .clock, .timeout])).1.isTO = 1 := by decide
+
+
+-- setmaxsize(1) between two recv_until calls that omit maxsize: the first finds "\r\n" inside the
+-- constructor maxsize 100, the second must raise MessageTooLong; an explicit maxsize is unaffected
+example : (runCalls 1000 ⟨2, 100⟩ [.recvUntil [13, 10] .unset false, .setMaxsize 1,
+      .recvUntil [13, 10] .unset false, .recvUntil [13, 10] (.some 9) true, .recvClose .none]
+      (start exScript)).1
+    = [.ok [97, 98], .tooLong, .ok [99, 100, 13, 10], .ok []] := by decide
+example : resolveCalls 1000 100 [.recvUntil [58] .unset false, .setMaxsize 1, .recvClose .unset,
+      .recvClose .none, .peek 3]
+    = [.recvUntil [58] 100 false, .recvClose 1, .recvClose 1000, .peek 3] := by decide
+-- constructed with maxsize 5 (window 2), then setmaxsize(100): the window follows (4), so a 12-byte
+-- payload ("12:" is a 3-byte prefix) is read back; with the stale window it would be MessageTooLong
+example : (NsSock.configure 5 [100]).window = 4 ∧ (NsSock.init 5).window = 2 := by decide
+example : ((NsSock.configure 5 [100]).readNsMany ⟨3, 3⟩ none 1
+      (start [.chunk (encodeNs [1, 2, 3, 4, 5, 6, 7, 8, 9, 10, 11, 12])])).1
+    = [.ok [1, 2, 3, 4, 5, 6, 7, 8, 9, 10, 11, 12]] := by decide
+example : (readNsWith ⟨3, 3⟩ 100 2 (start [.chunk (encodeNs [1, 2, 3, 4, 5, 6, 7, 8, 9, 10, 11, 12])])).1
+    = .tooLong := by decide
+example : ((NsSock.init 5).readNsMany ⟨3, 3⟩ (some 100) 1
+      (start [.chunk (encodeNs [1, 2, 3, 4, 5, 6, 7, 8, 9, 10, 11, 12])])).1
+    = [.ok [1, 2, 3, 4, 5, 6, 7, 8, 9, 10, 11, 12]] := by decide
+-- a Timeout in the prefix phase is restartable, one in the payload phase is not (the prefix is gone)
+example : (recvUntil ⟨4, 4⟩ [colon] 3 false (start [.chunk [51], .timeout, .chunk [58, 1, 2, 3, 44]])).1
+    = .timeout := by decide
+example : (readNsMany ⟨4, 4⟩ 10 2 (start [.chunk [51], .timeout, .chunk [58, 1, 2, 3, 44]])).1
+    = [.timeout, .ok [1, 2, 3]] := by decide
+example : (readNsMany ⟨4, 4⟩ 10 2 (start [.chunk [51, 58, 1], .timeout, .chunk [2, 3, 44]])).1
+    = [.timeout, .tooLong] := by decide
+-- the deadline passes during the send that takes the last byte: Timeout, nothing left to send
+example : (send [1, 2, 3] (sstart [.accept 2, .accept 5, .clock])).1 = .timeout ∧
+    (send [1, 2, 3] (sstart [.accept 2, .accept 5, .clock])).2.getsendbuffer = [] ∧
+    (send [1, 2, 3] (sstart [.accept 2, .accept 5, .clock])).2.wire = [1, 2, 3] := by decide
+-- the deadline passes after a partial send: the rest waits for flush, nothing is sent twice
+example : ((srun [.send [1, 2, 3], .flush] (sstart [.accept 2, .clock])).1.map (·.1)) = [.timeout, .none] ∧
+    (srun [.send [1, 2, 3], .flush] (sstart [.accept 2, .clock])).2.wire = [1, 2, 3] := by decide
+
 end C12
